@@ -41,6 +41,17 @@ CLAIMED = {
              "error placeholder ('154n97w' -> '154n97wXX' accepted). Negative ints, non-ASCII digits and strings with "
              "surrounding blanks as *components* are outside the stated quantifier.",
         design_ref="§5.6, §6 C12"),
+    "C17": dict(
+        technique="TLA+ denotation of the documented orders + model of _sort_custom's integer keys, exhaustive TLC check on "
+                  "small lists, cases replayed on real Tract/TRS containers, TLC trace validation of every observed order",
+        text="TLC checks for every list up to 3 elements over valid/error/undefined components and every legal key (incl. "
+             ".rev, two keys) that successive stable passes on the code's integer keys (north negative, max+1 for missing "
+             "numbers) give exactly the documented multi-key order, a permutation with invalid components last; every such "
+             "case, 45 illegal-key cases and thousands of random lists (2..8 elements, 1..3 keys, rendered key spellings) are "
+             "executed on TractList/TRSList/PLSSDesc.sort_tracts and TLC compares each observed order with Sort(list, keys).",
+        note="Trusted: construction of Tract/TRS objects from abstract shapes; identity of elements by id(). Township/range "
+             "0 and partially interpreted keys ('t.foo') are outside the claim.",
+        design_ref="§5.10, §6 C17"),
 }
 
 NOT_APPLICABLE = {
